@@ -2,6 +2,7 @@ package resolvers
 
 import (
 	"context"
+	"sort"
 
 	"github.com/MichaelMure/git-bug/api/auth"
 	"github.com/MichaelMure/git-bug/api/graphql/connections"
@@ -103,7 +104,9 @@ func (repoResolver) AllIdentities(_ context.Context, obj *models.Repository, aft
 	}
 
 	// Simply pass a []string with the ids to the pagination algorithm
+	// The ids come from a map: sort them to paginate over a stable order.
 	source := obj.Repo.Identities().AllIds()
+	sort.Slice(source, func(i, j int) bool { return source[i] < source[j] })
 
 	// The edger create a custom edge holding just the id
 	edger := func(id entity.Id, offset int) connections.Edge {
